@@ -8,7 +8,13 @@ RULE = ("one Kani harness per (source unit, target unit) pair and per NaT-absorp
 def check(v, tier, opts):
     v.functions.update(["tea_time::DateTime::into_unit", "tea_time::DateTime::{is_nat,into_opt_i64,from_opt_i64}",
                         "tea_dtype::Cast<DateTime<_>> for DateTime<_>"])
-    v.bounds.append("timestamps: full i64 range (no bound); finer-then-back round trip additionally on |v| < 2^20")
+    v.functions.update(["all operator impls of tea-time/src/impls/impl_ops.rs with one NaT operand (DateTime +- TimeDelta, DateTime - DateTime, "
+                        "TimeDelta +- TimeDelta, -TimeDelta, TimeDelta * i32, Time +- TimeDelta)", "DateTime::{as_cr, time, year..second, duration_trunc} NaT paths",
+                        "From<Option<i64>> / From<Option<NaiveDateTime>> / Default constructors"])
+    v.bounds.append("NaT laws and finer-unit law: full i64 range; floor law: quotients within +-2^12 with every residue (a 64-bit divider against any "
+                    "independent statement of floor does not come back from SAT); finer-then-back round trip on |v| < 2^20 (ratio 10^3) / 2^7 (10^6, 10^9)")
+    v.bounds.append("NaT absorption: other operand fully symbolic (DateTime/Time any i64; TimeDelta any i32 months, |secs| <= 2^40, every nanosecond part)")
+    v.outside.append("TimeDelta / TimeDelta (returns i32, panics by design on NaT); Timelike getters of Time (return u32)")
     v.outside.append("calendar field getters and round trip through chrono::DateTime (chrono calendar tables: no "
                      "solver answer in 40-55 min in the design probes); judged against chrono's documented floor contract")
     kani_engine.decide(v, "C16", tier, opts)
